@@ -339,6 +339,12 @@ Arguments can {St}. Arguments dec {St}. Arguments next_of {St}. Arguments payloa
 Arguments mkR {St}. Arguments r_store {St}. Arguments r_decoded {St}.
 Arguments r_trunc {St}. Arguments r_err {St}. Arguments mkE {St}.
 Arguments e_typ {St}. Arguments e_obj {St}. Arguments e_state {St}. Arguments e_cls {St}. Arguments e_trunc {St}.
+Arguments mkL {St}. Arguments l_store {St}. Arguments l_decoded {St}. Arguments l_trunc {St}. Arguments l_res {St}.
+Arguments puts_of {St}. Arguments loop {St}. Arguments new_parser {St}. Arguments add_layer {St}.
+Arguments decode_layers {St}. Arguments decode_seq {St}. Arguments pkt {St}. Arguments packet_chain {St}.
+Arguments SEnd {St}. Arguments SUnsup {St}. Arguments SFail {St}.
+Arguments run_prefix {St}. Arguments expected_err {St}. Arguments touched {St}. Arguments expected_store {St}.
+Arguments expected_trunc {St}. Arguments spec_parse {St}.
 
 (* ------------------------------------------------------------------ scripted family *)
 (* The synthetic decoding layers used by the correspondence harness (the same table is
@@ -413,7 +419,7 @@ Record rstate := mkRS {
 Definition run_op (fixed : bool) (fam : family sstate) (rs : rstate) (o : op) : rstate * obs :=
   match o with
   | ONew kind first ip iu sub =>
-      match new_parser sstate fixed kind first ip iu fam sub with
+      match new_parser fixed kind first ip iu fam sub with
       | Ok p => (mkRS (Some p) (map (fun d => zero d) fam) (rs_decoded rs), mkO 0 false None)
       | _ => (mkRS None (map (fun d => zero d) fam) (rs_decoded rs), mkO 0 true None)
       end
@@ -421,7 +427,7 @@ Definition run_op (fixed : bool) (fam : family sstate) (rs : rstate) (o : op) : 
       match rs_parser rs with
       | None => (rs, mkO 0 true None)
       | Some p =>
-          match add_layer sstate fixed p fam k with
+          match add_layer fixed p fam k with
           | Ok p' => (mkRS (Some p') (rs_store rs) (rs_decoded rs), mkO 0 false None)
           | _ => (mkRS None (rs_store rs) (rs_decoded rs), mkO 0 true None)
           end
@@ -430,7 +436,7 @@ Definition run_op (fixed : bool) (fam : family sstate) (rs : rstate) (o : op) : 
       match rs_parser rs with
       | None => (rs, mkO 1 true None)
       | Some p =>
-          let r := decode_layers sstate fixed fam p (rs_store rs) (rs_decoded rs) data in
+          let r := decode_layers fixed fam p (rs_store rs) (rs_decoded rs) data in
           (mkRS (Some p) (r_store r) (r_decoded r), mkO 1 false (Some r))
       end
   end.
